@@ -551,9 +551,16 @@ impl<T: PartialOrd + Copy> Interval<T> {
         F: FnOnce(T) -> T,
     {
         match self {
-            Interval::TwoSided(low, high) => Interval::TwoSided(f_low(*low), f_high(*high)),
-            Interval::LowerOneSided(low) => Interval::UpperOneSided(f_low(*low)),
-            Interval::UpperOneSided(high) => Interval::LowerOneSided(f_high(*high)),
+            Interval::TwoSided(low, high) => {
+                let (a, b) = (f_low(*low), f_high(*high));
+                if a <= b {
+                    Interval::TwoSided(a, b)
+                } else {
+                    Interval::TwoSided(b, a)
+                }
+            }
+            Interval::UpperOneSided(low) => Interval::UpperOneSided(f_low(*low)),
+            Interval::LowerOneSided(high) => Interval::LowerOneSided(f_high(*high)),
         }
     }
 
@@ -679,7 +686,11 @@ impl<F: Neg<Output = F> + PartialOrd + Copy> Neg for Interval<F> {
     type Output = Self;
 
     fn neg(self) -> Self::Output {
-        self.applied_both(|x| -x)
+        match self {
+            Interval::TwoSided(low, high) => Interval::TwoSided(-high, -low),
+            Interval::UpperOneSided(low) => Interval::LowerOneSided(-low),
+            Interval::LowerOneSided(high) => Interval::UpperOneSided(-high),
+        }
     }
 }
 
